@@ -335,14 +335,18 @@ def check(ctx):
                if ok1 and ok2 else "a Literal node could become a BoundCall result: running a plan would overwrite the literal's value")
     # ---------------------------------------------------------------- M4
     pc = m.method("Plan", "copy", "M4")
-    txt = [norm(s) for s in pc.node.body if not (isinstance(s, ast.Expr) and isinstance(s.value, ast.Constant))]
-    ok = txt == ["new_plan = Plan()", "new_plan.graph = self.graph.copy()", "return new_plan"]
+    from ..astq import canon, global_names, real_body
+    keep = global_names(m, pc)
+    txt = canon(real_body(pc.node), keep)
+    ok = txt == canon(["new_plan = Plan()", "new_plan.graph = self.graph.copy()", "return new_plan"], keep)
     ctx.ob("C13.M4", "Plan.copy", ok, loc(pc), "new Plan with graph.copy() (own scope, own lock)" if ok else
            "Plan.copy no longer builds an independent plan (e.g. shares the graph)", " ; ".join(txt)[:150])
     rc = m.method("Registry", "copy", "M4")
     dcs = [n for n in rc.own_nodes() if isinstance(n, ast.DictComp)]
-    ok = len(dcs) == 1 and norm(dcs[0].value).startswith("copy.copy(") and "self.mapping.items()" in norm(dcs[0].generators[0].iter) and \
-        any(norm(s) == "new_registry = Registry()" for s in rc.node.body)
+    keep = global_names(m, rc)
+    ok = len(dcs) == 1 and canon([dcs[0]], keep) == canon(["{node: copy.copy(registry_value) for node, registry_value in self.mapping.items()}"], keep) and \
+        canon(real_body(rc.node), keep)[0] == canon(["new_registry = Registry()"], keep)[0] and \
+        any(isinstance(s_, ast.Assign) and isinstance(s_.targets[0], ast.Attribute) and s_.targets[0].attr == "mapping" and s_.value is dcs[0] for s_ in rc.node.body)
     ctx.ob("C13.M4", "Registry.copy", ok, loc(rc), "new Registry whose entries are copy.copy of the originals" if ok else
            "Registry.copy shares the mapping or its RegistryValue objects with the original")
     for cname in ("Plan", "Registry"):
